@@ -8,6 +8,7 @@ from vf.writers import qcow2 as w
 
 ID = "C01"
 LEVEL = "exploration"
+CONTRACTS = True  # icontract postconditions on AlignedStream.read/peek/seek fire during this workload too
 STEP_BUDGET = 30_000_000  # line events per case; a case that exceeds it is reported as non-termination
 ANCHOR_FILES = ["dissect/hypervisor/disk/qcow2.py", "dissect/hypervisor/disk/c_qcow2.py"]
 RULE = (
